@@ -52,3 +52,13 @@ package evidence
 //@     invariant -1 <= i && i < idx && idx < len(hashes) && len(hashes) == len(evList) && fresh(hashes)
 //@     invariant forall k int :: i < k && k < idx ==> hashes[k] != hashes[idx]
 //@     invariant forall a int, b int :: 0 <= a && a < b && b < idx ==> hashes[a] != hashes[b]
+
+// Evidence is gossiped only to a peer that is PAST the evidence height (a peer still at that height has
+// no header for it yet and would have to reject the evidence -- and the sender with it) and for which it
+// has not expired.
+//@ func (evR Reactor) prepareEvidenceMessage(peer p2p.Peer, ev types.Evidence) (evis []types.Evidence)
+//@   for C19
+//@   requires peer != nil && ev != nil && evR.evpool != nil
+//@   modifies *
+//@   ensures [onlyToPeersPastTheEvidenceHeight] len(evis) > 0 ==> evHeight < peerHeight && ageNumBlocks <= params.MaxAgeNumBlocks
+//@   ensures [exactlyThatEvidence] len(evis) > 0 ==> len(evis) == 1 && evis[0] == ev
